@@ -48,11 +48,12 @@ def check(ctx):
         drv = build(ctx, proto, race=True)
         d = ctx.subdir("c10_" + proto)
         # (1a) no hooks, race detector
-        rounds = 6 if thorough else 2
+        rounds = 8 if thorough else 2
         for k in range(rounds):
             out = os.path.join(d, "norec%d.ndjson" % k)
             rc, log, to = ctx.go_run(drv, "TestVerifCacheStress", timeout=600,
                                      env={"VERIF_OUT": out, "VERIF_RECORD": "0", "VERIF_SEED": ctx.seed * 100 + k,
+                                          "VERIF_PRELOAD": k % 2,     # odd rounds: a restarted collector (cache loaded from an aged file)
                                           "VERIF_WORKERS": 8, "VERIF_OPS": 400 if thorough else 200, "VERIF_DUMPS": 40})
             ctx.count([proto, "race-run", ctx.seed, k])
             rr = race_report(log)
